@@ -504,6 +504,16 @@ func checkC16(env *engine.Env, ci any) engine.Outcome {
 		m := envFunc(c.Env)
 		hasRef := strings.Contains(c.Value, "$")
 		isContents := strings.Contains(key, "contents.")
+		// whether or not a field is one of the documented expandable ones: no field is expanded TWICE (what a
+		// variable resolves to is data, not another reference)
+		if once := os.Expand(c.Value, m); hasRef {
+			if twice := os.Expand(once, m); twice != once {
+				if l := leafStrings(got, c.Kind); len(l) > 0 && strings.TrimSpace(l[0]) == strings.TrimSpace(twice) && strings.TrimSpace(twice) != "" {
+					viol("expand:twice:"+key, "%s: %q under %v was read back as %q - the text the variable resolved to (%q) was expanded again", key, c.Value, c.Env, l[0], once)
+					return out
+				}
+			}
+		}
 		switch c.Kind {
 		case "string", "strptr":
 			g := got.String()
@@ -666,6 +676,33 @@ func checkC16(env *engine.Env, ci any) engine.Outcome {
 		}
 	}
 	return out
+}
+
+// leafStrings reads a leaf value back as strings (string: one; list: its items; map: the value under Key).
+func leafStrings(got reflect.Value, kind string) []string {
+	switch kind {
+	case "string":
+		return []string{got.String()}
+	case "strptr":
+		if got.Kind() == reflect.Ptr {
+			if got.IsNil() {
+				return nil
+			}
+			return []string{got.Elem().String()}
+		}
+		return []string{got.String()}
+	case "strlist":
+		var g []string
+		for i := 0; i < got.Len(); i++ {
+			g = append(g, got.Index(i).String())
+		}
+		return g
+	case "strmap":
+		if e := got.MapIndex(reflect.ValueOf("Key")); e.IsValid() {
+			return []string{e.String()}
+		}
+	}
+	return nil
 }
 
 // isExpandedList: lists the parser is documented to trim.
